@@ -48,11 +48,14 @@ func sortJids(js []jid) []jid {
 	return js
 }
 
+// ids that differ pairwise in exactly one field (so a comparison that forgets a field is exposed), plus an RBAC id with a colon
 var c19Universe = []jid{
 	{"ns", "a", "", "ConfigMap"},
+	{"ns", "a", "apps", "ConfigMap"},
+	{"other", "a", "", "ConfigMap"},
+	{"ns", "b", "", "ConfigMap"},
+	{"ns", "a", "", "Secret"},
 	{"", "sys:b", "rbac.authorization.k8s.io", "ClusterRole"},
-	{"ns", "a", "apps", "Deployment"},
-	{"other", "c", "", "ConfigMap"},
 }
 
 type setIn struct {
@@ -120,7 +123,7 @@ func genLists(univ []jid, maxLen int) [][]jid {
 func init() {
 	register("set", domain{
 		gen: func(out *proto.Out, rng *proto.Rng, tier string) {
-			univ := c19Universe[:3]
+			univ := []jid{c19Universe[0], c19Universe[1], c19Universe[5]}
 			maxLen := 3
 			if tier == "thorough" {
 				maxLen = 4
